@@ -96,6 +96,35 @@ def parse_md5():
         sys.stderr.write(f"gen_tables: expected 64 MD5 step lines in md5.cpp, found {len(steps)}\n"); return None
     return steps
 
+def parse_getopts():
+    """longOpts[] and shortOpts[] of valget/getopts.cpp -> ([(name, has_arg, val)], short string); None if not recognisable"""
+    txt = open(f"{REPO}/valget/getopts.cpp").read()
+    m = re.search(r"const\s+struct\s+option\s+longOpts\s*\[\s*\]\s*=\s*\{(.*?)\};", txt, re.S)
+    so = re.search(r'const\s+char\s+shortOpts\s*\[\s*\]\s*=\s*"([^"\\]*)"\s*;', txt)
+    if not m or not so:
+        sys.stderr.write("gen_tables: longOpts/shortOpts not found in valget/getopts.cpp\n"); return None
+    body = m.group(1)
+    rows = re.findall(r"\{([^{}]*)\}", body)
+    ents = []
+    for r in rows:
+        f = [x.strip() for x in r.split(",")]
+        if len(f) != 4:
+            sys.stderr.write(f"gen_tables: unrecognised longOpts row {{{r}}}\n"); return None
+        if f == ["0", "0", "0", "0"] or f == ["NULL", "0", "NULL", "0"]: continue
+        nm = re.fullmatch(r'"([^"\\]*)"', f[0])
+        arg = {"no_argument": 0, "required_argument": 1, "optional_argument": 2, "0": 0, "1": 1, "2": 2}.get(f[1])
+        if not nm or arg is None or f[2] not in ("NULL", "0", "nullptr"):
+            sys.stderr.write(f"gen_tables: unrecognised longOpts row {{{r}}}\n"); return None
+        v = re.fullmatch(r"'(.)'", f[3])
+        if v: val = ord(v.group(1))
+        elif re.fullmatch(r"\d+", f[3]): val = int(f[3])
+        else:
+            sys.stderr.write(f"gen_tables: unrecognised longOpts val {f[3]}\n"); return None
+        ents.append((nm.group(1), arg, val))
+    if not ents:
+        sys.stderr.write("gen_tables: empty longOpts\n"); return None
+    return ents, so.group(1)
+
 def tree(vals, lo, hi, ty, ind):
     """balanced if-tree over n in [lo,hi)"""
     if hi - lo == 1:
@@ -123,7 +152,8 @@ def write_if_changed(path, content):
 def main():
     d = dump_repo()
     md5 = parse_md5()
-    if d is None or md5 is None:
+    go = parse_getopts()
+    if d is None or md5 is None or go is None:
         return 3
     t = "/- GENERATED by tools/gen_tables.py from /repo on every check run. Do not edit. -/\nnamespace Wencry.Gen\n\n"
     t += fun_table("sboxT", d["s_box"], 8, 8, "s_box of kernel/multi_aes/aes/tab.h")
@@ -152,6 +182,10 @@ def main():
               "EMPTY", "UPDATING", "READY", "INV", "FULL", "FINAL", "NODATA"):
         c += f"def c_{k} : Nat := {d[k]}\n"
     c += "/-- FILE_TEXT_MARK(t) for t = 0..16 -/\ndef c_FILE_TEXT_MARK : List Nat := [" + ", ".join(str(v) for v in d["FILE_TEXT_MARK"]) + "]\n"
+    bl = lambda t: "[" + ", ".join(str(b) for b in t.encode()) + "]"
+    c += "/-- longOpts of valget/getopts.cpp: (name, has_arg as 0/1/2, val); every `flag` field is NULL -/\n"
+    c += "def longOpts : List (List (BitVec 8) × Nat × Nat) := [\n" + ",\n".join(f"  ({bl(n)}, {a}, {v})" for n, a, v in go[0]) + "]\n"
+    c += f"/-- shortOpts of valget/getopts.cpp -/\ndef shortOpts : List (BitVec 8) := {bl(go[1])}\n"
     c += "\nend Wencry.Gen\n"
     ch1 = write_if_changed(os.path.join(OUTDIR, "Tables.lean"), t)
     ch2 = write_if_changed(os.path.join(OUTDIR, "Consts.lean"), c)
